@@ -1,7 +1,7 @@
 (* C02, fifth file: positions read from a coordinate file are attached to the right atoms for every listing order
    (atom_group::create_sorted_ids + cvm::load_coords).  Discrete: no axioms. *)
 From Coq Require Import ZArith List Bool Permutation.
-From CV Require Import C02.LoadModel C02.LoadProofs.
+From CV Require Import Base.Num C18.ValueModel C02.ValueModel C02.ValueProofs C02.LoadModel C02.LoadProofs.
 Import ListNotations.
 
 (* sorted_atoms_ids is the increasing rearrangement of the group's ids *)
@@ -29,5 +29,13 @@ Proof.
   apply (Permutation_in _ (Permutation_sym (sorted_ids_perm ids))). apply nth_In. rewrite sorted_ids_length. exact Hi.
 Qed.
 Print Assumptions C02_sorted_map_points_back.
+(* atom selections: the group holds exactly the selected atoms that have a valid id, each once (C02_duplicates_ignored),
+   in the order of first selection; a range a-b selects a, a+1, ..., b *)
+Theorem C02_selection_membership : forall (T : Type) (l : list (@atom T)) (i : Z),
+  (In i (map a_id (mk_group l)) <-> In i (map a_id l) /\ (0 <= i)%Z) /\
+  (forall a b, In i (range_list a b) <-> (a <= i <= b)%Z) /\
+  (forall a b, length (range_list a b) = Z.to_nat (b - a + 1)).
+Proof. intros T l i. split; [apply mk_group_ids | split; [intros; apply range_list_in | intros; apply range_list_length]]. Qed.
+Print Assumptions C02_selection_membership.
 Example C02_example_load : load_coords 0%Z [3; 5; 2; 6]%Z [20; 30; 50; 60]%Z = [30; 50; 20; 60]%Z /\ sorted_map [3; 5; 2; 6]%Z = [2; 0; 1; 3].
 Proof. split; reflexivity. Qed.
